@@ -3,6 +3,7 @@ C12 — Concurrent block transfers are isolated; replies belong to the current
 request.  Model: Model/Block.lean; histories of entry-point calls
 (Lemmas/BlockTrace.lean).
 -/
+import CoapLite.Lemmas.Shape.Api
 import CoapLite.Lemmas.BlockTrace
 import CoapLite.Lemmas.Request
 import CoapLite.Lemmas.BlockSession
@@ -151,5 +152,13 @@ theorem state_shape_matches_source :
     Shapes.header = [("code", "MessageClass"), ("message_id", "u16"), ("ver_type_tkl", "u8")] ∧
     Shapes.headerRaw = [("code", "u8"), ("message_id", "u16"), ("ver_type_tkl", "u8")] :=
   ⟨ShapeTie.no_global_state, ShapeTie.blockHandler, ShapeTie.blockHandlerConfig, ShapeTie.requestCacheKey, ShapeTie.blockState, ShapeTie.blockValue, ShapeTie.coapRequest, ShapeTie.coapResponse, ShapeTie.packet, ShapeTie.header, ShapeTie.headerRaw⟩
+
+/-- the public entry points of the modelled source files – re-read from /repo/src on every run – are
+exactly the ones the model was written against (`Lemmas/Shape/Api.lean`): a new public way to change the
+state this property is about, or a receiver that became `&mut self`, breaks this theorem -/
+theorem api_surface_matches_source :
+    Shapes.apiBlockHandler = ShapeTie.expectedApiBlockHandler ∧
+    Shapes.apiRequest = ShapeTie.expectedApiRequest :=
+  ⟨ShapeTie.apiBlockHandler, ShapeTie.apiRequest⟩
 
 end CoapLite.C12
